@@ -93,8 +93,10 @@ def run_family(cid, tier, jobs, timeout_s, target, only=None):
         "--cbmc-args", "--max-field-sensitivity-array-size", "4096",
     ]
     t0 = time.time()
-    mem_kb = int(os.environ.get("VERIF_CBMC_MEM_KB", "14000000"))
-    p = sh("ulimit -v %d; exec %s" % (mem_kb * max(1, jobs), " ".join(cmd)), cwd=HARNESS_RUN, env=kani_env())
+    # address-space limit per process (CBMC included): a harness that needs more is reported as
+    # out of memory (inconclusive) instead of endangering the other checks
+    mem_kb = int(os.environ.get("VERIF_CBMC_MEM_KB", "16000000"))
+    p = sh("ulimit -v %d; exec %s" % (mem_kb, " ".join(cmd)), cwd=HARNESS_RUN, env=kani_env())
     return p.stdout, time.time() - t0, out_dir, " ".join(cmd)
 
 
@@ -204,7 +206,7 @@ def native_replay(cid, hname, tests, scratch):
     for i, t in enumerate(tests):
         vals = ",\n        ".join("vec![%s]" % ", ".join(str(b) for b in v) for v in t["values"])
         body.append(
-            "#[test]\nfn replay_%d() {\n    unsafe { crate::util::NATIVE_REPLAY = true; }\n    let concrete_vals: Vec<Vec<u8>> = vec![\n        %s\n    ];\n    kani::concrete_playback_run(concrete_vals, crate::%s::%s);\n}\n"
+            "#[test]\nfn replay_%d() {\n    unsafe { crate::util::NATIVE_REPLAY = 0x4e41_5431; }\n    let concrete_vals: Vec<Vec<u8>> = vec![\n        %s\n    ];\n    kani::concrete_playback_run(concrete_vals, crate::%s::%s);\n}\n"
             % (i, vals, mod, hname))
     open(os.path.join(scratch, "src", "replay_tests.rs"), "w").write("\n".join(body))
     with open(os.path.join(scratch, "src", "lib.rs"), "a") as f:
@@ -295,7 +297,9 @@ def main():
         if a.no_replay:
             confirmed.append((n, fcs, None, None))
             continue
-        tests, raw = extract_counterexamples(cid, n, target, timeout_s)
+        # trace generation disables formula slicing: give the extraction run more time than the check
+        tests, raw = extract_counterexamples(cid, n, target, max(1800, 3 * timeout_s))
+        open(os.path.join(CACHE, "last_playback_%s.log" % n), "w").write(raw)
         fail_tests = [t for t in tests if t["kind"] != "cover"]
         if not fail_tests:
             inconclusive.append((n, "failed check but no counterexample could be extracted"))
